@@ -22,7 +22,7 @@ RULE = ("(a) exhaustive: every condition tree with <= N connective nodes (and/or
         "&,|,~, n-ary) on 3-6 random objects; (c) API spellings (let vs T(From(d)), entity vs an(x, ...), a vs an, "
         "several conditions passed to entity); (d) given domains that hold no instance of the type (empty / other type only) while "
         "instances exist in the process, results consumed while the consumer is inside a symbolic block, conditions whose "
-        "user method constructs a @symbol object; (e) very wide and very deep conditions (and_/or_ with 8-30 operands, 6-14 nested negations, right-deep chains of 8-16 alternating connectives). A case is non-trivial when the oracle result is neither empty nor the "
+        "user method constructs a @symbol object; (e) very wide and very deep conditions (and_/or_ with 8-30 operands, 6-14 nested negations, right-deep chains of 8-16 alternating connectives); (f) histories: 1-3 evaluations of the same query, an earlier evaluation left after a few results (closed, or kept alive), an earlier complete evaluation under the other caching switch. A case is non-trivial when the oracle result is neither empty nor the "
         "whole domain; distinct = distinct (condition, data, spelling) by structural hash.")
 LEVEL_TEXT = ("Reference-model monitoring at the API boundary: the real query is built and evaluated, its result list is "
               "compared by identity and order with a plain-Python filter of the same domain. All condition trees up to "
